@@ -130,6 +130,7 @@ type ks struct {
 	acc     string              // accumulator variable of an accumulator loop ("" outside)
 	wrap    func(string) string
 	fall    string // value when control falls off the end of the current block ("" = not allowed)
+	cont    string // value of `continue` inside a loop body ("" outside a loop)
 	idsVar  string // the local that holds the identity preimages once the idiom was seen
 	err     error
 }
@@ -170,6 +171,20 @@ func isFieldChain(e ast.Expr) bool {
 		return isFieldChain(x.X)
 	}
 	return false
+}
+
+// isPureValue: a field chain, or len / an integer conversion of one (the fragment never assigns
+// to a field, a slice or a parameter, so the value is the same wherever it is used).
+func isPureValue(e ast.Expr) bool {
+	if c, ok := e.(*ast.CallExpr); ok && len(c.Args) == 1 {
+		switch ksText(c.Fun) {
+		case "len", "uint64", "int", "int64", "int32":
+			return isPureValue(c.Args[0]) || isFieldChain(c.Args[0])
+		}
+		return false
+	}
+	_, isSel := e.(*ast.SelectorExpr)
+	return isSel && isFieldChain(e)
 }
 
 // resolve replaces the pure locals (see alias) inside an expression by what they stand for.
@@ -276,6 +291,22 @@ func (t *ks) expr(e ast.Expr) string {
 		}
 	case *ast.UnaryExpr:
 		if x.Op == token.NOT {
+			// the negation of a comparison is the opposite comparison: !(a < b) is a >= b, ...
+			inner := x.X
+			for {
+				p, ok := inner.(*ast.ParenExpr)
+				if !ok {
+					break
+				}
+				inner = p.X
+			}
+			if be, ok := inner.(*ast.BinaryExpr); ok {
+				opp := map[token.Token]token.Token{token.LSS: token.GEQ, token.GEQ: token.LSS, token.GTR: token.LEQ,
+					token.LEQ: token.GTR, token.EQL: token.NEQ, token.NEQ: token.EQL}
+				if o, ok := opp[be.Op]; ok {
+					return t.expr(&ast.BinaryExpr{X: be.X, Op: o, Y: be.Y})
+				}
+			}
 			return "(negb " + t.expr(x.X) + ")"
 		}
 	case *ast.BinaryExpr:
@@ -443,9 +474,27 @@ func (t *ks) stmts(ss []ast.Stmt) string {
 	switch s := ss[0].(type) {
 	case *ast.EmptyStmt:
 		return t.stmts(rest)
+	case *ast.BranchStmt:
+		if s.Tok != token.CONTINUE || s.Label != nil || t.cont == "" || len(rest) != 0 {
+			return t.fail("unsupported branch statement")
+		}
+		return t.cont
 	case *ast.ReturnStmt:
 		if len(rest) != 0 {
 			return t.fail("statements after a return")
+		}
+		// `return f(...)` of a verdict function is `res, err := f(...); if res != Accept || err != nil
+		// { return res, err }; return Accept, nil` (the callees return an error exactly with Reject)
+		if call, ok := s.Results[0].(*ast.CallExpr); ok && len(s.Results) == 1 && t.kind == ksVerdictFn {
+			res, errv := ast.NewIdent("gen_res"), ast.NewIdent("err")
+			accept := &ast.SelectorExpr{X: ast.NewIdent("pubsub"), Sel: ast.NewIdent("ValidationAccept")}
+			return t.stmts([]ast.Stmt{
+				&ast.AssignStmt{Lhs: []ast.Expr{res, errv}, Tok: token.ASSIGN, Rhs: []ast.Expr{call}},
+				&ast.IfStmt{Cond: &ast.BinaryExpr{X: &ast.BinaryExpr{X: res, Op: token.NEQ, Y: accept}, Op: token.LOR,
+					Y: &ast.BinaryExpr{X: errv, Op: token.NEQ, Y: ast.NewIdent("nil")}},
+					Body: &ast.BlockStmt{List: []ast.Stmt{&ast.ReturnStmt{Results: []ast.Expr{res, errv}}}}},
+				&ast.ReturnStmt{Results: []ast.Expr{accept, ast.NewIdent("nil")}},
+			})
 		}
 		return t.ret(s, "")
 	case *ast.IfStmt:
@@ -520,7 +569,7 @@ func (t *ks) assign(s *ast.AssignStmt, rest []ast.Stmt) string {
 		}
 		// extra := keys.Extra.(*p2pmsg.DecryptionKeys_Gnosis).Gnosis
 		// x := a.b.c  (a pure local): inlined at every use
-		if _, isSel := s.Rhs[0].(*ast.SelectorExpr); isSel && isFieldChain(s.Rhs[0]) && !t.locals[id.Name] {
+		if isPureValue(s.Rhs[0]) && !t.locals[id.Name] {
 			if t.alias == nil {
 				t.alias = map[string]ast.Expr{}
 			}
@@ -584,6 +633,19 @@ func (t *ks) assign(s *ast.AssignStmt, rest []ast.Stmt) string {
 		cal, ok := t.callees[name]
 		if !ok {
 			return t.fail("call of %s, which is not a known callee", name)
+		}
+		for i, a := range call.Args {
+			if ix, ok := a.(*ast.IndexExpr); ok {
+				if _, known := t.lists[ksText(t.resolve(ix.X))]; known {
+					tmp := ast.NewIdent(fmt.Sprintf("gen_arg%d", i))
+					nargs := append([]ast.Expr{}, call.Args...)
+					nargs[i] = tmp
+					return t.stmts(append([]ast.Stmt{
+						&ast.AssignStmt{Lhs: []ast.Expr{tmp}, Tok: token.DEFINE, Rhs: []ast.Expr{ix}},
+						&ast.AssignStmt{Lhs: s.Lhs, Tok: s.Tok, Rhs: []ast.Expr{&ast.CallExpr{Fun: call.Fun, Args: nargs}}},
+					}, rest...))
+				}
+			}
 		}
 		var args []string
 		for _, a := range call.Args {
@@ -683,6 +745,7 @@ func (t *ks) rangeLoop(s *ast.RangeStmt, rest []ast.Stmt) string {
 	if t.acc != "" {
 		body.wrap = func(v string) string { return "(inr " + v + ")" }
 		body.fall = "(inl " + t.acc + ")"
+		body.cont = body.fall
 		b := body.stmts(s.Body.List)
 		after := t.stmts(rest)
 		out = "match gen_range_acc (fun " + t.acc + " " + xv + " =>\n  " + b + ") " + l + " " + t.acc + " with\n  | inr gen_r => gen_r\n  | inl " + t.acc + " =>\n  " + after + "\n  end"
@@ -692,6 +755,7 @@ func (t *ks) rangeLoop(s *ast.RangeStmt, rest []ast.Stmt) string {
 	} else {
 		body.wrap = func(v string) string { return "(Some " + t.wrap(v) + ")" }
 		body.fall = "None"
+		body.cont = "None"
 		b := body.stmts(s.Body.List)
 		after := t.stmts(rest)
 		out = "match gen_range_until (fun " + iv + " " + xv + " =>\n  " + b + ") " + l + " 0 with\n  | Some gen_r => gen_r\n  | None =>\n  " + after + "\n  end"
@@ -729,6 +793,7 @@ func (t *ks) forLoop(s *ast.ForStmt, rest []ast.Stmt) string {
 	body.locals[iv] = true
 	body.wrap = func(v string) string { return "(Some " + t.wrap(v) + ")" }
 	body.fall = "None"
+	body.cont = "None"
 	// Normal form: `for i := 0; i < len(l); i++ { x := l[i]; ... }` IS `for i, x := range l { ... }`
 	// (l[i] cannot be out of range under the loop condition, nothing in the fragment assigns to l or
 	// i); both spellings are emitted as the range form, so that the choice between them is not
